@@ -12,8 +12,8 @@ F = 'tartiflette/coercers/inputs/'
 
 
 def value_ok(v):
-    """JSON values reaching a coercer: anything but the internal sentinels"""
-    return z3.And(v != V.Undef, v != V.Missing, z3.Implies(V.is_Float(v), wf_float(v)))
+    """JSON values reaching a coercer (recursive well-formedness: no internal sentinels, string-keyed maps, IEEE floats)"""
+    return SI.JsonWf(v)
 
 
 def callable_or_none(d):
@@ -172,5 +172,133 @@ class DirectivesC(InputCoercer):
         return super().call_model(en, st, f, a, kw)
 
 
-CONTRACTS = COMMON_CONTRACTS + [NonNull(), ListC(), NullWrapper(), ScalarC(), DirectivesC()]
+class DidYouMean(Contract):
+    key = 'tartiflette/utils/errors.py::did_you_mean'
+    property_ids = ('C04', 'C05')
+    params = ['suggestion_list']
+    mutable = {'suggestion_list': 'list'}
+
+    def pre(self, A, st):
+        v = A.get('suggestion_list@0', A['suggestion_list'])
+        return [('is_list', V.is_List(v))] if z3.is_expr(v) else []
+
+    def post(self, A, st0, out):
+        if out.kind == 'raise':
+            return never_raises(out)
+        return [('returns_text', V.is_Str(out.value))]
+
+
+def enum_value_wf(ev):
+    return z3.And(exact(ev, 'GraphQLEnumValue'), V.oref(ev) >= 0, V.is_Fun(attr0(ev, 'input_coercer')))
+
+
+class EnumC(Decorated):
+    key = F + 'enum_coercer.py::enum_coercer'
+    params = ['parent_node', 'node', 'value', 'ctx', 'enum_type', 'path']
+
+    def beh(self, A):
+        return Beh.EnumB(A['enum_type'])
+
+    def pre(self, A, st):
+        t = A['enum_type']
+        ev = SI.enum_value_of(t, A['value'])
+        return super().pre(A, st) + [
+            ('enum_type', z3.And(exact(t, 'GraphQLEnumType'), V.oref(t) >= 0, V.is_Dict(attr0(t, '_value_map')), V.is_List(attr0(t, 'values')), V.is_Str(attr0(t, 'name')))),
+            # instance of the class invariant of GraphQLEnumType established by bake_enum_values: the map holds baked enum values
+            ('value_map_entry', z3.Or(ev == V.Missing, enum_value_wf(ev)))]
+
+    def elem_preds(self, A):
+        return [(V.items(attr0(A['enum_type'], 'values')), lambda x: z3.And(exact(x, 'GraphQLEnumValue'), V.oref(x) >= 0))]
+
+    def call_model(self, en, st, f, a, kw):
+        A = self.A
+        ev = SI.enum_value_of(A['enum_type'], A['value'])
+        if z3.eq(z3.simplify(f), z3.simplify(attr0(ev, 'input_coercer'))):
+            v = en.read(a[1], st)
+            e = V.Obj(fresh('ecls', IntS), fresh('eref', IntS))
+            return en.branches(st, [(z3.Not(SI.EnumHook_raises(ev, v)), SI.EnumHook_val(ev, v)),
+                                    (z3.And(SI.EnumHook_raises(ev, v), en.is_instance_of(e, 'Exception')), Raise(e))])
+        return None
+
+
+def input_field_wf(f):
+    return z3.And(exact(f, 'GraphQLInputField'), V.oref(f) >= 0, V.is_Fun(attr0(f, 'input_coercer')), V.is_Fun(attr0(f, 'literal_coercer')),
+                  inst(attr0(f, 'graphql_type'), 'GraphQLType'), V.oref(attr0(f, 'graphql_type')) >= 0,
+                  z3.Or(attr0(f, 'default_value') == V.None_, ast_node(attr0(f, 'default_value'))))
+
+
+class InputFieldValue(Contract):
+    """input_field_value_coercer: one declared field of an input object against the provided value (Undef = absent)"""
+    key = F + 'input_object_coercer.py::input_field_value_coercer'
+    property_ids = ('C04',)
+    params = ['parent_node', 'node', 'value', 'ctx', 'input_field', 'path']
+
+    def args(self, en, names):
+        self.A = super().args(en, names)
+        return self.A
+
+    def pre(self, A, st):
+        return [('value', z3.Or(A['value'] == V.Undef, SI.JsonWf(A['value']))),
+                ('node', node_or_none(A['node'])), ('input_field', input_field_wf(A['input_field']))]
+
+    def call_model(self, en, st, f, a, kw):
+        fl = self.A['input_field']
+        f = z3.simplify(f)
+        if z3.eq(f, z3.simplify(attr0(fl, 'input_coercer'))):
+            return input_call(en, st, f, en.read(a[2], st))
+        if z3.eq(f, z3.simplify(attr0(fl, 'literal_coercer'))):
+            # the literal world (C05): result of coercing the field's default literal -- opaque here, shared with the oracle
+            st2, cr = new_cr(en, st, SI.DefLit_ok(fl), SI.DefLit_val(fl))
+            return [(st2, cr)]
+        return None
+
+    def post(self, A, st0, out):
+        if out.kind == 'raise':
+            return never_raises(out)
+        f, j, r, st = A['input_field'], A['value'], out.value, out.st
+        tag = SI.F_tag(f, j)
+        return [('omitted_iff_spec', (r == V.Undef) == (tag == 2)),
+                ('result_wf', z3.Implies(tag != 2, cr_wf(st, r))),
+                ('accepts_iff_spec', z3.Implies(tag != 2, cr_ok(st, r) == (tag == 0))),
+                ('value_is_spec', z3.Implies(tag == 0, cr_value(st, r) == SI.F_val(f, j)))]
+
+
+class InputObjectC(Decorated):
+    key = F + 'input_object_coercer.py::input_object_coercer'
+    params = ['parent_node', 'node', 'value', 'ctx', 'input_object_type', 'path']
+
+    def beh(self, A):
+        return Beh.InObjB(A['input_object_type'])
+
+    def pre(self, A, st):
+        t = A['input_object_type']
+        return super().pre(A, st) + [('input_object_type', z3.And(exact(t, 'GraphQLInputObjectType'), V.oref(t) >= 0, V.is_Dict(attr0(t, 'input_fields')), V.is_Str(attr0(t, 'name')))),
+                                     ('json_keys_are_strings', z3.BoolVal(True))]
+
+    def elem_preds(self, A):
+        t = A['input_object_type']
+        return [(SI.inobj_fields(t), lambda p: z3.And(V.is_Pair(p), V.is_Str(V.fst(p)), input_field_wf(V.snd(p)))),
+                ]
+
+    def _fields(self):
+        return SI.inobj_fields(self.A['input_object_type']), V.ditems(self.A['value'])
+
+    def _inv0(self, en, st, k, st0):
+        fields, jit = self._fields()
+        errors = V.items(en.read(st.env['errors'], st))
+        vals_ = V.ditems(en.read(st.env['coerced_values'], st))
+        return {'errors_iff_bad_prefix': VL.is_nil(errors) == SI.FOk(fields, jit, k),
+                'values_are_prefix': z3.Implies(VL.is_nil(errors), vals_ == SI.FVal(fields, jit, k))}
+
+    def _inv1(self, en, st, k, st0):
+        fields, jit = self._fields()
+        errors = V.items(en.read(st.env['errors'], st))
+        return {'errors_iff_bad_or_unknown': VL.is_nil(errors) == z3.And(SI.FOk(fields, jit, length(fields)), SI.Known(jit, fields, k))}
+
+    @property
+    def loops(self):
+        return {0: LoopContract(self._inv0), 1: LoopContract(self._inv1)}
+
+
+CONTRACTS = COMMON_CONTRACTS + [DidYouMean(), EnumC(), InputFieldValue(), InputObjectC(), NonNull(), ListC(), NullWrapper(), ScalarC(), DirectivesC()]
 LEMMAS = []
